@@ -274,7 +274,7 @@ def run(tier):
         rep.extra['walks'] = len(traces)
         rep.extra['events'] = nev
         rep.extra['events_by_op'] = ops
-        if ops.get('dump_json', 0) < 50 or ops.get('parse_zinc', 0) < 50 or ops.get('norm', 0) < 20:
+        if (ops.get('dump_json', 0) < 50 or ops.get('parse_zinc', 0) < 50 or ops.get('norm', 0) < 20) and not rep.violations:
             raise MachineryError('vacuous walks: %r' % ops)
         rep.sample({'walk': [{k: v for k, v in e.items() if k in ('op', 'i', 'j', 'exc')} for e in traces[0]]})
         # binding self-test: a walk whose parse result is corrupted must be rejected at that event
